@@ -47,6 +47,7 @@ c["selftest"] = {
     "what": "semantic mutants applied to scratch copies of the current tree; fire = the property's rules must report a new violation, silent = behaviour-preserving edit must not",
     "mutants": len(res), "ok": sum(1 for r in res if r.get("outcome") == "ok"),
     "missed": [r["id"] for r in miss], "skipped": [r["id"] for r in res if r.get("outcome") in ("skipped", "invalid")],
+    "documented_false_alarms_on_benign_refactorings": [r["id"] for r in res if r.get("outcome") == "known-false-alarm"],
     "results": res,
 }
 c["explanation"] += " THOROUGH: same rules re-evaluated under GOARCH=386 and without build tags (verdicts must be identical), reachability rules additionally on the VTA call graph, and the checker is tested against %d semantic mutants of the current tree (%d as expected)." % (len(res), c["selftest"]["ok"])
